@@ -38,15 +38,42 @@ def addrsOf (kind : String) (p : Nat) : List Str × List Str :=
 
 def third : Str := Str.ofString "T"
 
-/-- the third party's datagrams as a party holding `sameKey` sees them -/
-def noiseOf (scn : String) (sid : Str) (sameKey : Bool) : List (Str × Dgram) :=
+/-- the third party's datagrams as party `who` ('V' visitor, 'C' owner) holding `sameKey` sees them.
+    w / v / c: a well-formed NatHoleSid of ANOTHER session (same key, Response = true) at both sockets / the
+    visitor's only / the owner's only; f: the same with Response = false (both sockets) -/
+def noiseOf (scn : String) (sid : Str) (sameKey : Bool) (who : Char) : List (Str × Dgram) :=
+  let foreign : Str := Str.ofString "nosuchsid"
   scn.toList.flatMap (fun ch =>
     if ch = 'g' then [(third, Dgram.junk), (third, Dgram.junk)]
     else if ch = 'k' then [(third, recode false true sid true)]
-    else if ch = 'w' then [(third, recode sameKey true (Str.ofString "nosuchsid") true)]
+    else if ch = 'w' then [(third, recode sameKey true foreign true)]
+    else if ch = 'v' then (if who = 'V' then [(third, recode sameKey true foreign true)] else [])
+    else if ch = 'c' then (if who = 'C' then [(third, recode sameKey true foreign true)] else [])
+    else if ch = 'f' then [(third, recode sameKey true foreign false)]
     else if ch = 't' then [(third, recode sameKey false sid true)]
     else if ch = 'i' then [(third, recode sameKey true sid false)]
     else [])
+
+/-- one item of a `pwdm` inbox: `<src a|b|c><code>`; j garbage, k0/k1 own sid under another key, t0/t1 truncated,
+    o0/o1 OUR sid, f0/f1 another session's sid, p0/p1 our sid with a suffix, e0/e1 the empty sid -/
+def dgramOf (sid : Str) (item : String) : Option (Str × Dgram) :=
+  match item.toList with
+  | src :: code =>
+    if !(src = 'a' ∨ src = 'b' ∨ src = 'c') then none else
+    let s : Str := Str.ofString (String.singleton src)
+    match code with
+    | ['j'] => some (s, .junk)
+    | ['k', r] | ['t', r] => if r = '0' ∨ r = '1' then some (s, .junk) else none
+    | ['o', r] => if r = '0' ∨ r = '1' then some (s, .sid sid (r = '1')) else none
+    | ['f', r] => if r = '0' ∨ r = '1' then some (s, .sid (Str.ofString "F" ++ sid) (r = '1')) else none
+    | ['p', r] => if r = '0' ∨ r = '1' then some (s, .sid (sid ++ Str.ofString "x") (r = '1')) else none
+    | ['e', r] => if r = '0' ∨ r = '1' then some (s, .sid [] (r = '1')) else none
+    | _ => none
+  | [] => none
+
+def wdmStr : Option (Str × Bool) → String
+  | none => "n#-"
+  | some (src, replied) => s!"{Str.toString src}#{if replied then Str.toString src ++ ":1" else "-"}"
 
 def runs (r : Resp) : Bool := r.error == .none && !r.candidateAddrs.isEmpty   -- ExchangeInfo returned a response
 
@@ -68,6 +95,18 @@ def step (st : St) (tok : List String) (impl : String) : St × Verdict :=
       -- the codec must be the identity on what a peer with the same key receives intact
       (st, verdictOf ms impl (if same then some (impl = ms) else none))
     | _, _, _, _, _ => (st, .bad "sidmsg")
+  | ["pwdm", role, sid, items] =>
+    -- one real waitDetectMessage (MakeHole with an instruction that probes nothing) on a socket where the listed
+    -- datagrams are already queued, in order
+    match Nat'.roleOf role, unhx sid, (items.splitOn ",").mapM (fun it => unhx sid >>= fun s => dgramOf s it) with
+    | some role, some sid, some inbox =>
+      -- the property on the implementation's own result (C20.waitLoop_eq_spec, waitLoop_filter_harmless,
+      -- foreign_sid_anywhere): the outcome is that of the first datagram that decides BY ITSELF — own key, own sid,
+      -- for a sender a response — as if everything else had never arrived; exactly that datagram's source is
+      -- answered, with Response = true, iff it was not itself a response
+      let spec := wdmStr (C20.specWait role sid (inbox.filter (fun p => C20.decides role sid p.2)))
+      (st, verdictOf (wdmStr (waitLoop role sid inbox)) impl (some (impl == spec)))
+    | _, _, _ => (st, .bad "pwdm")
   | ["pstart", id, vk, ck, scn] =>
     match id.toNat?, (impl.splitOn ",").mapM (·.toNat?) with
     | some id, some [pv, pc] =>
@@ -96,8 +135,8 @@ def step (st : St) (tok : List String) (impl : String) : St × Verdict :=
             let aV := loAddr "127.0.0.1" i.pv
             let aC := loAddr "127.0.0.1" i.pc
             let sameKey := !i.scn.contains 'm'
-            let pV : Party := { resp := v, addr := aV, noise := noiseOf i.scn sid true }
-            let pC : Party := { resp := c, addr := aC, noise := noiseOf i.scn sid sameKey }
+            let pV : Party := { resp := v, addr := aV, noise := noiseOf i.scn sid true 'V' }
+            let pC : Party := { resp := c, addr := aC, noise := noiseOf i.scn sid sameKey 'C' }
             let mo :=
               if runs v && runs c then s!"{letter (outcome sameKey pV pC) aC};{letter (outcome sameKey pC pV) aV}"
               else s!"{if runs v then "n" else "x"};{if runs c then "n" else "x"}"
